@@ -17,10 +17,10 @@ pub struct Plan {
     pub faults: Vec<(u64, Payload)>, // (fault point index, payload kind)
     pub seed: u64,
 }
-pub const OP_NAMES: [&str; 32] = [
+pub const OP_NAMES: [&str; 33] = [
     "new_conn", "drop_conn", "add", "echo_string", "echo_vec", "sum_ref", "len_ref", "count_str", "sum_slice", "try_div", "bump", "many",
     "call_fn", "call_fnmut", "take_boxed_fn", "call_stored", "drop_stored", "take_leaf", "ping_leaves", "drop_leaves", "make_leaf", "use_leaf",
-    "drop_leaf", "make_fn", "use_fn", "drop_fn", "spawn", "poll", "fire", "cancel", "join", "concat",
+    "drop_leaf", "make_fn", "use_fn", "drop_fn", "spawn", "poll", "fire", "cancel", "join", "concat", "spawn_async",
 ];
 pub fn op_code(name: &str) -> i64 {
     OP_NAMES.iter().position(|n| *n == name).map(|x| x as i64).unwrap_or(2)
@@ -81,8 +81,16 @@ impl Wake for TaskWaker {
         });
     }
 }
+/// owner of the connection an `#[async_trait]` future borrows from; dropped after the future
+struct Owner(*mut Box<dyn ASvc>);
+impl Drop for Owner {
+    fn drop(&mut self) {
+        unsafe { drop(Box::from_raw(self.0)) }
+    }
+}
 struct Task {
     fut: Option<Pin<Box<dyn Future<Output = u32>>>>,
+    owner: Option<Owner>,
     gen: u64,
     wakers: Vec<Arc<TaskWaker>>,
     done: bool,
@@ -125,6 +133,16 @@ fn new_conn(kind: &WorldKind) -> Result<Box<dyn Svc>, String> {
     match kind {
         WorldKind::Direct => Ok(imp),
         WorldKind::Abi => match AbiConnection::<dyn Svc>::from_boxed_trait(imp) {
+            Ok(c) => Ok(Box::new(c)),
+            Err(e) => Err(format!("{:?}", e)),
+        },
+    }
+}
+fn new_aconn(kind: &WorldKind) -> Result<Box<dyn ASvc>, String> {
+    let imp: Box<dyn ASvc> = Box::new(ASvcImpl::new());
+    match kind {
+        WorldKind::Direct => Ok(imp),
+        WorldKind::Abi => match AbiConnection::<dyn ASvc>::from_boxed_trait(imp) {
             Ok(c) => Ok(Box::new(c)),
             Err(e) => Err(format!("{:?}", e)),
         },
@@ -393,8 +411,32 @@ pub fn run_world(plan: &Plan, kind: WorldKind) -> RunLog {
                     let stages = 1 + (c.unsigned_abs() % 3) as u32;
                     max_event = max_event.max(ev + stages);
                     let f = conns[i].as_ref().unwrap().fut(ev, stages);
-                    tasks.push(Task { fut: Some(f), gen: 0, wakers: vec![], done: false, polls: 0 });
+                    tasks.push(Task { fut: Some(f), owner: None, gen: 0, wakers: vec![], done: false, polls: 0 });
                     // a new task is runnable
+                    let idx = tasks.len() - 1;
+                    WORLD.with(|w| w.borrow_mut().woken.insert((idx, 0)));
+                    "ok".into()
+                }
+                "spawn_async" => {
+                    if tasks.len() >= 6 {
+                        return "noop".into();
+                    }
+                    let ev = (b.unsigned_abs() % 8) as u32;
+                    max_event = max_event.max(ev + 1);
+                    let conn = match new_aconn(&kind) {
+                        Ok(c) => c,
+                        Err(e) => return format!("error {}", e),
+                    };
+                    // the future borrows the connection: keep the connection alive (and drop it) together with the task
+                    let raw: *mut Box<dyn ASvc> = Box::into_raw(Box::new(conn));
+                    let owner = Owner(raw);
+                    let fut: Pin<Box<dyn Future<Output = u32> + Send + '_>> = if c % 2 == 0 {
+                        unsafe { (*raw).aget(ev, c as u32) }
+                    } else {
+                        unsafe { (*raw).aset(ev, gen_string(c, (c.unsigned_abs() % 130) as usize)) }
+                    };
+                    let fut: Pin<Box<dyn Future<Output = u32>>> = unsafe { std::mem::transmute(fut) };
+                    tasks.push(Task { fut: Some(fut), owner: Some(owner), gen: 0, wakers: vec![], done: false, polls: 0 });
                     let idx = tasks.len() - 1;
                     WORLD.with(|w| w.borrow_mut().woken.insert((idx, 0)));
                     "ok".into()
@@ -427,6 +469,7 @@ pub fn run_world(plan: &Plan, kind: WorldKind) -> RunLog {
                         return "noop".into();
                     }
                     tasks[t].fut = None;
+                    tasks[t].owner = None;
                     tasks[t].done = true;
                     "ok cancelled".into()
                 }
@@ -483,6 +526,7 @@ pub fn run_world(plan: &Plan, kind: WorldKind) -> RunLog {
     let r = catch_unwind(AssertUnwindSafe(|| {
         for t in tasks.iter_mut() {
             t.fut = None;
+            t.owner = None;
         }
         fns.clear();
         leaves.clear();
@@ -529,6 +573,7 @@ fn poll_task(tasks: &mut [Task], t: usize) -> String {
         Ok(Poll::Ready(v)) => {
             task.done = true;
             drop(fut);
+            task.owner = None;
             format!("ready {}", v)
         }
         Ok(Poll::Pending) => {
@@ -539,6 +584,7 @@ fn poll_task(tasks: &mut [Task], t: usize) -> String {
             // a future that panicked in poll must not be polled again: drop it
             task.done = true;
             let _ = catch_unwind(AssertUnwindSafe(|| drop(fut)));
+            task.owner = None;
             format!("poll-{}", classify_panic(p, true))
         }
     }
@@ -648,7 +694,7 @@ pub fn gen_plan(seed: u64) -> Plan {
         pool.extend(["take_boxed_fn", "take_boxed_fn", "call_stored", "drop_stored", "take_leaf", "take_leaf", "ping_leaves", "drop_leaves", "make_leaf", "use_leaf", "drop_leaf", "make_fn", "use_fn", "drop_fn"]);
     }
     if fam_fut {
-        pool.extend(["spawn", "spawn", "poll", "poll", "poll", "fire", "fire", "cancel"]);
+        pool.extend(["spawn", "spawn", "spawn_async", "spawn_async", "poll", "poll", "poll", "poll", "fire", "fire", "cancel"]);
     }
     if fam_conn {
         pool.extend(["new_conn", "drop_conn"]);
